@@ -878,6 +878,9 @@ mod b12 {
 	//!       digest <tag-hex> <tlv-hex>                     -> <digest-hex>   (hook offers::tagged_digest)
 	//!       mverify <r|p> <base-key> <iv> <metadata> <tlv> -> ok | err       (hook offers::verify_metadata, non key-deriving lengths)
 	//!       mhmac <r|p> <base-key> <iv> <metadata> <tlv>   -> <secret-hex>   (hook offers::verify_metadata, key-deriving lengths)
+	//!       mkeys <r|p> <base-key> <iv> <metadata> <signing-pubkey> <secret:pubkey|-> <tlv> -> keys <secret> | ok | err
+	//!                                                      (the whole verdict incl. the public key comparison)
+	//!       offerverify <base-key> <nonce|-> <secret:pubkey|-> <offer> / invverify <base-key> <secret:pubkey|-> <invoice>
 	//! plus implementation-only oracles (round trips, single-bit mutations of signed streams, metadata
 	//! negatives, no-panic fuzzing of the public parsers), counted in the stats notes.
 	use ldk_verif_harness::common::*;
@@ -1060,6 +1063,15 @@ mod b12 {
 	fn b12_secret_recipient(base: &[u8; 32], iv: &[u8; 16], nonce: &[u8; 16], tlv: &[u8]) -> [u8; 32] { b12_hmac(base, &[iv, nonce, tlv, &[2u8; 16], &[3u8; 16]]) }
 	fn b12_secret_payer(base: &[u8; 32], iv: &[u8; 16], enc: &[u8; 32], nonce: &[u8; 16], tlv: &[u8]) -> [u8; 32] { b12_hmac(base, &[iv, nonce, tlv, &[2u8; 16], &[4u8; 16], enc]) }
 
+	/// The same point with the other parity (the negated point): first byte of the compressed key 0x02 <-> 0x03.
+	fn b12_flip_parity(pk: &PublicKey) -> PublicKey { let mut b = pk.serialize(); b[0] ^= 1; PublicKey::from_slice(&b).expect("the negation of a valid point is a valid point") }
+	/// `<secret>:<compressed pubkey>`: the one secp256k1 evaluation (`Keypair::from_secret_key`) a key-deriving
+	/// verification needs; the Lean model has no curve arithmetic and takes it from here (trusted dependency).
+	/// The model only uses the entry when ITS OWN recomputed HMAC equals `secret`.
+	fn b12_pub_table(st: &B12St, secret: &[u8; 32]) -> String {
+		match SecretKey::from_slice(secret) { Ok(sk) => format!("{}:{}", hex(secret), hex(&PublicKey::from_secret_key(&st.secp, &sk).serialize())), Err(_) => "-".to_string() }
+	}
+
 	// ---------------------------------------------------------------------------------------------
 	// op emitters
 	// ---------------------------------------------------------------------------------------------
@@ -1089,6 +1101,29 @@ mod b12 {
 			},
 			Err(p) => { rec.oracle_fail(format!("panic in tagged_digest on a well-formed stream: {} bytes={}", p, hex(bytes))); rec.case(&op, &format!("panic {}", p.replace('\n', " ")), &format!("{}:panic", class), true); None },
 		}
+	}
+
+	/// `mirror <req|inv> <source bytes> <payer|-> <own> <expOwn|-> <sig>` -> the message bytes: the model rebuilds the
+	/// signed message from the EARLIER message's bytes (offer -> request, request / refund -> invoice) with the write plan
+	/// translated from UnsignedInvoiceRequest::new / UnsignedBolt12Invoice::new, given only the message's own records.
+	/// Impl-side oracle (no model): every record of the source inside the mirrored ranges reappears byte for byte.
+	fn b12_emit_mirror(rec: &mut Rec, class: &str, kind: &str, src: &[u8], msg: &[u8]) {
+		let req = kind == "req";
+		let in_src_range = |t: u64| if req { (1..80).contains(&t) || (1_000_000_000..2_000_000_000).contains(&t) } else { t < 160 || (1_000_000_000..3_000_000_000).contains(&t) };
+		let (own_lo, own_hi, exp_lo, exp_hi) = if req { (80u64, 160u64, 2_000_000_000u64, 3_000_000_000u64) } else { (160, 240, 3_000_000_000, 4_000_000_000) };
+		let payer = if req { b12_select(msg, |t| t == 0) } else { vec![] };
+		let own = b12_select(msg, |t| (own_lo..own_hi).contains(&t));
+		let exp_own = b12_select(msg, |t| (exp_lo..exp_hi).contains(&t));
+		let sig = b12_select(msg, b12_is_sig);
+		if let (Some(sr), Some(mr)) = (b12_split(src), b12_split(msg)) {
+			for r in sr.iter().filter(|r| in_src_range(r.typ)) {
+				if !mr.iter().any(|m| m.typ == r.typ && msg[m.start..m.end] == src[r.start..r.end]) {
+					rec.oracle_fail(format!("record type {} of the earlier message is not mirrored byte for byte ({} {}): source={} message={}", r.typ, class, kind, hex(src), hex(msg)));
+				}
+			}
+		}
+		let h = |b: &[u8]| if b.is_empty() { "-".to_string() } else { hex(b) };
+		rec.case(&format!("mirror {} {} {} {} {} {}", kind, hex(src), h(&payer), h(&own), h(&exp_own), h(&sig)), &hex(msg), class, true);
 	}
 
 	/// `mverify` op (metadata length must not be a key-deriving one). `expect`: what the impl oracle demands.
@@ -1130,6 +1165,22 @@ mod b12 {
 				other => rec.oracle_fail(format!("verify_metadata accepted a signing pubkey that is not the derived one ({:?}): {}", other.map(|r| r.map(|o| o.is_some())), op)),
 			}
 			st.verify_neg += 1;
+		}
+		// `mkeys` ops: the whole verdict incl. the public key comparison (the model's translated `keysEq` on the
+		// 33-byte compressed keys): the derived key, an unrelated key, and the derived key with its PARITY flipped
+		let table = b12_pub_table(st, secret);
+		let flipped = b12_flip_parity(&pk);
+		for (what, cand, must_ok) in [("derived", pk, true), ("unrelated", wrong, wrong == pk), ("parityflip", flipped, false)] {
+			let kop = format!("mkeys {} {} {} {} {} {} {}", if payer { "p" } else { "r" }, hex(&base), hex(iv), hex(meta), hex(&cand.serialize()), table, hex(tlv));
+			let (kans, ok) = match guarded(B12Aus(|| b12_vho::verify_metadata(payer, meta, ek, iv, cand, tlv))) {
+				Ok(Ok(Some(s))) => (format!("keys {}", hex(&s)), Some(true)),
+				Ok(Ok(None)) => ("ok".to_string(), Some(true)),
+				Ok(Err(())) => ("err".to_string(), Some(false)),
+				Err(p) => { rec.oracle_fail(format!("panic in verify_metadata: {} op={}", p, kop)); (format!("panic {}", p.replace('\n', " ")), None) },
+			};
+			if let Some(o) = ok { if o != must_ok { rec.oracle_fail(format!("verify_metadata (derived keys) answered {} for the {} signing pubkey where {} is required ({}): {}", kans, what, if must_ok { "keys" } else { "err" }, class, kop)); } }
+			if !must_ok { st.verify_neg += 1; }
+			rec.case(&kop, &kans, &format!("mkeys:{}:{}", if payer { "p" } else { "r" }, what), true);
 		}
 	}
 
@@ -1645,18 +1696,37 @@ mod b12 {
 		let bytes = b12_ser(inv);
 		let ok = match guarded(B12Aus(|| inv.verify_using_metadata(ek, &st.secp).is_ok())) { Ok(v) => v, Err(pn) => { rec.oracle_fail(format!("panic in Bolt12Invoice::verify_using_metadata ({}): {}", pn, hex(&bytes))); return; } };
 		if let Some(e) = expect_ok { if e != ok { rec.oracle_fail(format!("invoice verify expected {} got {} ({}): invoice={}", e, ok, class, hex(&bytes))); } }
-		if inv.payer_metadata().len() == 48 && !ok { if expect_ok == Some(false) { st.verify_neg += 1; } return; }
-		rec.case(&format!("invverify {} {}", hex(&b12_vho::offers_base_key(ek)), hex(&bytes)), if ok { "ok" } else { "err" }, class, true);
+		if !ok && expect_ok == Some(false) { st.verify_neg += 1; }
+		// key-deriving payer metadata (48 bytes): the verdict hinges on the public key comparison; the model gets the
+		// secp256k1 evaluation of the harness-computed secret as a table and decides with its translated `keysEq`
+		let base = b12_vho::offers_base_key(ek);
+		let md = inv.payer_metadata();
+		let table = if md.len() == 48 {
+			let types: BTreeSet<u64> = b12_split(&bytes).map(|r| r.iter().map(|x| x.typ).collect()).unwrap_or_default();
+			let iv = if types.contains(&22) || types.contains(&16) { B12_IV_INVREQ } else if types.contains(&90) { B12_IV_REFUND_KEYS } else { B12_IV_REFUND_META };
+			let mut enc = [0u8; 32]; enc.copy_from_slice(&md[..32]);
+			let mut nonce = [0u8; 16]; nonce.copy_from_slice(&md[32..48]);
+			b12_pub_table(st, &b12_secret_payer(&base, iv, &enc, &nonce, &b12_payer_records_for_hmac(&bytes, true)))
+		} else { "-".to_string() };
+		rec.case(&format!("invverify {} {} {}", hex(&base), table, hex(&bytes)), if ok { "ok" } else { "err" }, class, true);
 	}
 
 	/// the invoice with one covered-or-not record altered and the signature recomputed with `signer`
-	fn b12_alter_and_resign(rng: &mut Rng, st: &B12St, orig: &[u8], signer: &Keypair) -> Option<(String, Bolt12Invoice)> {
+	/// `force_parity`: the alteration is the PARITY byte (0x02 <-> 0x03) of the mirrored payer id (type 88) — the one
+	/// record excluded from the payer's MAC input when the payer key is derived, authenticated by the key comparison only
+	fn b12_alter_and_resign(rng: &mut Rng, st: &B12St, orig: &[u8], signer: &Keypair, force_parity: bool) -> Option<(String, Bolt12Invoice)> {
 		let recs = b12_split(orig)?;
 		for _ in 0..12 {
 			let body: Vec<&B12Tlv> = recs.iter().filter(|r| !b12_is_sig(r.typ)).collect();
 			let (what, mut parts): (String, Vec<(u64, Vec<u8>)>) = {
 				let mut parts: Vec<(u64, Vec<u8>)> = body.iter().map(|r| (r.typ, orig[r.start..r.end].to_vec())).collect();
-				match rng.below(4) {
+				match if force_parity { 4 } else { rng.below(4) } {
+					4 => {
+						let i = body.iter().position(|r| r.typ == 88 && r.end - r.vstart == 33)?;
+						let off = body[i].vstart - body[i].start;
+						parts[i].1[off] ^= 1;
+						("parityflip:88".to_string(), parts)
+					},
 					0 | 1 => {
 						let cands: Vec<usize> = (0..body.len()).filter(|i| body[*i].end > body[*i].vstart).collect();
 						if cands.is_empty() { continue; }
@@ -1702,8 +1772,8 @@ mod b12 {
 		if !derived_by_payer { return; }
 		if let Some(kp) = signer {
 			let orig = b12_ser(inv);
-			for _ in 0..4 {
-				if let Some((what, altered)) = b12_alter_and_resign(rng, st, &orig, kp) {
+			for k in 0..5 {
+				if let Some((what, altered)) = b12_alter_and_resign(rng, st, &orig, kp, k == 4) {
 					// records of the invoice's own ranges (160..240, 3e9..) are the recipient's: not covered by the payer's MAC
 					let t: u64 = what.split(':').nth(1).and_then(|x| x.parse().ok()).unwrap_or(0);
 					let covered = match what.split(':').next().unwrap() { "insert-odd" => None, _ => Some(t < 160 || t >= 1_000_000_000 && t < 3_000_000_000) }; // type 0 is the metadata itself
@@ -1802,6 +1872,7 @@ mod b12 {
 		};
 		st.b12_built("invreq");
 		let rbytes = b12_ser(&req);
+		b12_emit_mirror(rec, "mirror:offer->invreq", "req", &obytes, &rbytes);
 		let rroot = b12_emit_merkle(rec, "merkle:invreq", &rbytes);
 		let rdigest = b12_emit_digest(rec, "digest:invreq", B12_TAG_INVREQ, &rbytes);
 		let stripped = b12_select(&rbytes, |t| !b12_is_sig(t));
@@ -1834,7 +1905,7 @@ mod b12 {
 		// ---- recipient-side verification, positives and negatives
 		let verified = b12_verify_invreq(rec, rng, st, &req, p.mode, &recipient, &offer);
 		b12_offer_verify_ops(rec, rng, st, &offer, &p, &recipient);
-		if p.mode != 0 { for _ in 0..2 { b12_altered_offer_probe(rec, rng, st, &offer, &p, &recipient, &payer); } }
+		if p.mode != 0 { for k in 0..3 { b12_altered_offer_probe(rec, rng, st, &offer, &p, &recipient, &payer, k == 2); } }
 		// ---- invoice
 		let ip = b12_gen_inv_p(rng, st);
 		let built: Result<(Bolt12Invoice, Option<[u8; 32]>), Bolt12SemanticError> = (|| match (&verified, p.mode) {
@@ -1856,6 +1927,7 @@ mod b12 {
 		match built {
 			Ok((inv, uroot)) => {
 				let ibytes = b12_ser(&inv);
+				b12_emit_mirror(rec, "mirror:invreq->invoice", "inv", &rbytes, &ibytes);
 				b12_check_invoice(rec, rng, st, "invoice", &inv, &ip, uroot);
 				b12_expect(rec, inv.is_for_offer() && !inv.is_for_refund(), "invoice.is_for_offer", &ibytes);
 				b12_expect(rec, Some(inv.amount_msats()) == req.amount_msats(), "invoice.amount_msats", &ibytes);
@@ -1919,8 +1991,22 @@ mod b12 {
 		};
 		if let Some(e) = expect_ok { if e != (ans != "err") { rec.oracle_fail(format!("offer verify expected {} got {} ({}): offer={}", if e { "ok" } else { "err" }, ans, class, hex(&bytes))); } }
 		let key_mode = nonce.is_some() || offer.metadata().map_or(false, |m| m.len() == 16);
-		if key_mode && ans == "err" { if expect_ok == Some(false) { st.verify_neg += 1; } return; }
-		rec.case(&format!("offerverify {} {} {}", hex(&base), nonce.map_or("-".to_string(), |n| hex(&n.nonce_bytes)), hex(&bytes)), &ans, class, true);
+		if ans == "err" && expect_ok == Some(false) { st.verify_neg += 1; }
+		// key-deriving mode: the verdict hinges on the public key comparison; the model gets the secp256k1 evaluation
+		// of the harness-computed secret as a table and decides with its translated `keysEq` (33-byte compressed keys)
+		let table = if key_mode {
+			let (iv, n16) = match nonce { Some(n) => (B12_IV_OFFER_KEYS, n.nonce_bytes), None => { let mut x = [0u8; 16]; x.copy_from_slice(&offer.metadata().unwrap()[..16]); (B12_IV_OFFER_META, x) } };
+			b12_pub_table(st, &b12_secret_recipient(&base, iv, &n16, &b12_offer_records_for_hmac(&bytes, true)))
+		} else { "-".to_string() };
+		rec.case(&format!("offerverify {} {} {} {}", hex(&base), nonce.map_or("-".to_string(), |n| hex(&n.nonce_bytes)), table, hex(&bytes)), &ans, class, true);
+	}
+
+	/// the offer with the PARITY byte of its issuer id (type 22) flipped: a different, valid key (the negated point)
+	fn b12_parity_flip_offer(orig: &[u8]) -> Option<(String, Offer)> {
+		let recs = b12_split(orig)?;
+		let r = recs.iter().find(|r| r.typ == 22 && r.end - r.vstart == 33)?;
+		let mut b = orig.to_vec(); b[r.vstart] ^= 1;
+		match guarded(B12Aus(|| Offer::try_from(b.clone()).ok())) { Ok(Some(o)) => Some(("parityflip:22".to_string(), o)), _ => None }
 	}
 
 	/// one random alteration of an offer's bytes that still parses as an offer
@@ -1986,8 +2072,9 @@ mod b12 {
 			_ => { b12_emit_offer_verify(rec, st, "offerverify:err:explicit", offer, None, &recipient.ek, Some(false)); },
 		}
 		if p.mode == 0 { return; }
-		for _ in 0..6 {
-			let (what, altered) = match b12_alter_offer(rng, &orig) { Some(x) => x, None => continue };
+		for k in 0..7 {
+			// the last one is always the parity flip of the issuer id (excluded from the MAC input when the key is derived)
+			let (what, altered) = match if k == 6 { b12_parity_flip_offer(&orig) } else { b12_alter_offer(rng, &orig) } { Some(x) => x, None => continue };
 			let nonce = if p.mode == 2 { Some(recipient) } else { None };
 			// the one alteration the real code accepts is KF-C18-1 (added metadata record on a path-derived offer)
 			let expect = if p.mode == 2 && what == "add-metadata" { None } else { Some(false) };
@@ -1995,11 +2082,11 @@ mod b12 {
 		}
 	}
 
-	fn b12_altered_offer_probe(rec: &mut Rec, rng: &mut Rng, st: &mut B12St, offer: &Offer, p: &B12OfferP, recipient: &B12Party, payer: &B12Party) {
+	fn b12_altered_offer_probe(rec: &mut Rec, rng: &mut Rng, st: &mut B12St, offer: &Offer, p: &B12OfferP, recipient: &B12Party, payer: &B12Party, force_parity: bool) {
 		let orig = b12_ser(offer);
 		let recs = match b12_split(&orig) { Some(r) => r, None => return };
-		let mut found: Option<(String, Offer)> = None;
-		for _ in 0..12 {
+		let mut found: Option<(String, Offer)> = if force_parity { match b12_parity_flip_offer(&orig) { Some((_, o)) => Some(("PARITY byte of the issuer id (type 22) flipped".to_string(), o)), None => return } } else { None };
+		for _ in 0..(if force_parity { 0 } else { 12 }) {
 			let (what, bytes): (String, Vec<u8>) = match rng.below(7) {
 				0 | 1 => { // flip one bit inside a value
 					let with_val: Vec<&B12Tlv> = recs.iter().filter(|r| r.end > r.vstart).collect();
@@ -2057,6 +2144,8 @@ mod b12 {
 		if res.is_ok() {
 			rec.oracle_fail(format!("request against an ALTERED offer verified ({}; offer mode {}): original_offer={} altered_offer={} request={}", what, p.mode, hex(&orig), hex(&b12_ser(&altered)), hex(&b12_ser(&req))));
 		}
+		// the altered copy's records (inserted unknown odd / appended experimental records included) are mirrored as bytes
+		b12_emit_mirror(rec, "mirror:altered-offer->invreq", "req", &b12_ser(&altered), &b12_ser(&req));
 		// the request itself is well signed, so it must still parse
 		if !matches!(b12_parse_invreq(b12_ser(&req)), Ok(Some(_))) { rec.oracle_fail(format!("request built against a parsed offer does not round trip: {}", hex(&b12_ser(&req)))); }
 		// labelled probe (not an oracle): the offer metadata record (type 4) is outside the HMAC-covered record set;
@@ -2215,6 +2304,7 @@ mod b12 {
 			Ok((inv, uroot)) => {
 				if refund.is_expired() { rec.oracle_fail(format!("invoice built for an expired refund: refund={}", hex(&fbytes))); }
 				let ibytes = b12_ser(&inv);
+				b12_emit_mirror(rec, "mirror:refund->invoice", "inv", &fbytes, &ibytes);
 				b12_check_invoice(rec, rng, st, "invoice_refund", &inv, &ip, uroot);
 				b12_expect(rec, inv.is_for_refund() && !inv.is_for_offer() && inv.offer_id().is_none() && inv.offer_chains().is_none(), "invoice.is_for_refund", &ibytes);
 				b12_expect(rec, inv.amount_msats() == p.amount, "invoice(refund).amount_msats", &ibytes);
